@@ -969,24 +969,33 @@ def clause_h(ctx: Context, idx) -> None:
                 rec(e)
                 return out_
 
-            for st in ast.walk(f):
-                if not isinstance(st, ast.If):
+            # stores `G[K] = V` into a module-level dict that the same function also looks up under the same key (`K in G`, `K not in G`,
+            # `G.get(K)`, `G[K]`): the cache idiom in all its spellings
+            for a in ast.walk(f):
+                if not (isinstance(a, ast.Assign) and len(a.targets) == 1 and isinstance(a.targets[0], ast.Subscript) and isinstance(a.targets[0].value, ast.Name)
+                        and a.targets[0].value.id in globals_):
                     continue
-                t = st.test
-                if not (isinstance(t, ast.Compare) and len(t.ops) == 1 and isinstance(t.ops[0], ast.NotIn) and isinstance(t.comparators[0], ast.Name)
-                        and t.comparators[0].id in globals_):
+                g = a.targets[0].value.id
+                key_e = a.targets[0].slice
+                kt = norm(key_e)
+                looked_up = False
+                for x in ast.walk(f):
+                    if isinstance(x, ast.Compare) and len(x.ops) == 1 and isinstance(x.ops[0], (ast.In, ast.NotIn)) and isinstance(x.comparators[0], ast.Name) \
+                            and x.comparators[0].id == g and norm(x.left) == kt:
+                        looked_up = True
+                    if isinstance(x, ast.Call) and isinstance(x.func, ast.Attribute) and x.func.attr == "get" and isinstance(x.func.value, ast.Name) \
+                            and x.func.value.id == g and x.args and norm(x.args[0]) == kt:
+                        looked_up = True
+                    if isinstance(x, ast.Subscript) and isinstance(x.ctx, ast.Load) and isinstance(x.value, ast.Name) and x.value.id == g and norm(x.slice) == kt:
+                        looked_up = True
+                if not looked_up:
                     continue
-                g = t.comparators[0].id
-                key_e = t.left
-                for a in ast.walk(st):
-                    if isinstance(a, ast.Assign) and len(a.targets) == 1 and isinstance(a.targets[0], ast.Subscript) and isinstance(a.targets[0].value, ast.Name) \
-                            and a.targets[0].value.id == g and norm(a.targets[0].slice) == norm(key_e):
-                        kp = paths(key_e)
-                        # strip call suffixes such as .tobytes() from key paths: the key covers the object the digest is taken of
-                        kp = {k_.split("(")[0].rsplit(".", 1)[0] if "(" in k_ else k_ for k_ in kp} | kp
-                        for v in sorted(paths(a.value)):
-                            if not any(v.startswith(k_) or k_.startswith(v) for k_ in kp):
-                                out.append((f, a.lineno, g, v))
+                kp = paths(key_e)
+                # strip call suffixes such as .tobytes() from key paths: the key covers the object the digest is taken of
+                kp = {k_.split("(")[0].rsplit(".", 1)[0] if "(" in k_ else k_ for k_ in kp} | kp
+                for v in sorted(paths(a.value)):
+                    if not any(v.startswith(k_) or k_.startswith(v) for k_ in kp):
+                        out.append((f, a.lineno, g, v))
         return out
 
     n_mod = 0
